@@ -54,12 +54,14 @@ def step (sh : Sh) (t : Tid) (pc : Pc) : List (Sh × Pc) :=
     | .done => [(sh, .ret)]
     | .owned o _ => [({ sh with gate := .owned o true, sleepers := t :: sh.sleepers }, .sleep (.owned o true))]
     | .zero => []          -- unreachable: the gate never returns to zero
-  | .sleep e =>
-    -- futex_wait returns when the word differs from the expected value or after a wake
-    if sh.gate ≠ e ∨ t ∈ sh.woken then
-      [({ sh with sleepers := rm sh.sleepers t, woken := rm sh.woken t }, .waitLoop)]
-    else []
+  | .sleep _ =>
+    -- futex_wait returns when the word differs from the expected value or after a wake (`properWake`) - and, as far as safety
+    -- goes, at ANY other time too: a spurious wake-up or a signal handler interrupting the wait. The caller goes round its loop.
+    [({ sh with sleepers := rm sh.sleepers t, woken := rm sh.woken t }, .waitLoop)]
   | .ret => []
+
+/-- the returns of futex_wait that the kernel owes the waiter (the others may or may not happen) -/
+def properWake (sh : Sh) (t : Tid) (e : Gate) : Prop := sh.gate ≠ e ∨ t ∈ sh.woken
 
 structure St where
   sh : Sh
@@ -158,14 +160,11 @@ theorem step_local {sh : Sh} {t : Tid} {pc : Pc} {sh' : Sh} {pc' : Pc}
       oauto
     · simp at h
   | sleep e =>
-    simp only [step] at h
-    split at h
-    · simp at h; obtain ⟨rfl, rfl⟩ := h
-      refine ⟨by oauto, by oauto, ?_⟩
-      intro t' q ne l'
-      obtain ⟨lo', loe', lno', lr', ls', lse', lw'⟩ := l'
-      oauto
-    · simp at h
+    simp [step] at h; obtain ⟨rfl, rfl⟩ := h
+    refine ⟨by oauto, by oauto, ?_⟩
+    intro t' q ne l'
+    obtain ⟨lo', loe', lno', lr', ls', lse', lw'⟩ := l'
+    oauto
   | ret => simp [step] at h
 
 structure Inv (s : St) : Prop where
@@ -205,14 +204,14 @@ theorem no_return_before_done {s : St} (h : Reachable s) (t : Tid) (hr : s.pcs t
   have := i.g.started; simp [hd] at this; exact this
 
 /-- **No lost broadcast** (progress as safety): a caller parked in the futex wait always has a way
-    out — either its own step is enabled (the word changed or it was woken), or the thread that
+    out that does not depend on luck (spurious returns) — either the kernel owes it a return (the word changed or it was woken), or the thread that
     will change the word (the running initialiser) or wake it (the broadcaster) has an enabled
     step. Hence no reachable state has a parked caller and no enabled step. -/
 theorem sleeper_not_stuck {s : St} (h : Reachable s) (u : Tid) (e : Gate) (hu : s.pcs u = .sleep e) :
-    (step s.sh u (s.pcs u) ≠ []) ∨ (∃ o, (s.pcs o = .init ∨ s.pcs o = .initDone ∨ s.pcs o = .wake)) := by
+    properWake s.sh u e ∨ (∃ o, (s.pcs o = .init ∨ s.pcs o = .initDone ∨ s.pcs o = .wake)) := by
   have i := inv_reachable h
   by_cases hen : s.sh.gate ≠ e ∨ u ∈ s.sh.woken
-  · left; simp [hu, step, hen]
+  · left; exact hen
   · right
     have hge : s.sh.gate = e := by
       by_cases hg : s.sh.gate = e
